@@ -302,7 +302,12 @@ func TestVerifC10(t *testing.T) {
 
 	// (c) metadata size cap through the real openMapped.
 	if p.Mine(0) {
-		for _, n := range []int{10, 511, 512, 513, 4096} {
+		var metaLens []int
+		for n := 6; n <= 514; n++ { // every length (all residues modulo the record unit) up to just over the cap
+			metaLens = append(metaLens, n)
+		}
+		metaLens = append(metaLens, 4096)
+		for _, n := range metaLens {
 			dir, _ := os.MkdirTemp(base, "meta")
 			meta := "K: " + strings.Repeat("v", n-5) + "\n\n"
 			m, err := openMapped(dir+"/f.v1.count", meta)
@@ -318,7 +323,7 @@ func TestVerifC10(t *testing.T) {
 				if derr != nil || cf.MetaRaw != meta {
 					res.Violate("meta-roundtrip", fmt.Sprintf("metadata of %d bytes does not round-trip: %v", n, derr), map[string]any{"meta_len": n})
 				}
-				res.Class(fmt.Sprintf("meta/%d", n))
+				res.Class(fmt.Sprintf("meta/mod32=%d", n%32))
 			default:
 				res.Class("meta/refused")
 			}
